@@ -143,3 +143,101 @@ def datetime_models(seed=0, n=2000):
     return {'what': 'strptime(prefix+strftime(d)) = d truncated to seconds',
             'cases': n, 'bound': '%d random dates, years 1000..9999' % n,
             'problems': problems[:10], 'counts_as_proof': False}
+
+
+def argparse_models(repo=None, seed=0, n=120):
+    """the argparse model of pyvc/argmodel.py against the real argparse, on
+    generated argument vectors of the canonical shape, through the real
+    parser modules of the tree under test (both sides run the same source)"""
+    import json
+    import subprocess
+    import os
+    from .vc import Session
+    from .values import PyExc, TupleObj, Obj, OutsideSubset
+    from contracts import options
+    rnd = random.Random(seed)
+    tables = {'put': options.PUT_TABLE, 'empty': options.EMPTY_TABLE,
+              'restore': options.RESTORE_TABLE, 'list': options.LIST_TABLE}
+    values = ['x', 'a b', '7', 'date', 'path', 'none', '/t/d', '0', 'é']
+    jobs = []
+    for cmd, table in tables.items():
+        for _ in range(n):
+            argv = []
+            for _k in range(rnd.randint(0, 3)):
+                ent = rnd.choice(table)
+                argv.append(ent[0])
+                if ent[1]:
+                    argv.append(rnd.choice(values))
+            if rnd.random() < 0.3:
+                argv.append('--')
+                argv += [rnd.choice(values + ['-dash', '--x']) for _k in range(rnd.randint(0, 2))]
+            else:
+                argv += [rnd.choice(values) for _k in range(rnd.randint(0, 2))]
+            jobs.append([cmd, argv])
+    S = Session('argparse-validation', repo=repo)
+    repo = S.interp.repo
+    p = subprocess.run(['/venv/bin/python', os.path.join(os.path.dirname(
+        os.path.abspath(__file__)), 'argparse_real.py')], input=json.dumps(jobs),
+        capture_output=True, text=True, env=dict(os.environ, PYTHONPATH=repo),
+        timeout=300)
+    real = json.loads(p.stdout)
+    model = []
+
+    def norm(v):
+        if isinstance(v, (list, tuple)):
+            return [norm(x) for x in v]
+        if isinstance(v, TupleObj):
+            return 'obj:' + v.cls.name
+        if isinstance(v, Obj):
+            if 'name' in v.attrs and 'value' in v.attrs:
+                return 'enum:' + v.attrs['name']
+            return 'obj:' + v.cls.name
+        if isinstance(v, (str, int, bool)) or v is None:
+            return v
+        return 'obj:?'
+
+    def body(V):
+        I = V.I
+        for cmd, argv in jobs:
+            try:
+                if cmd == 'put':
+                    o = I.call(I.lookup('trashcli.put.parser', 'Parser'), [], {})
+                    r = I.call(I.getattr(o, 'parse_args'), [['trash-put'] + argv], {})
+                elif cmd == 'empty':
+                    o = I.call(I.lookup('trashcli.empty.parser', 'Parser'), [], {})
+                    r = I.call(I.getattr(o, 'parse'), [False, {}, argv, 123, 'trash-empty'], {})
+                elif cmd == 'restore':
+                    o = I.call(I.lookup('trashcli.restore.restore_arg_parser',
+                                        'RestoreArgParser'), [], {})
+                    r = I.call(I.getattr(o, 'parse_restore_args'),
+                               [['trash-restore'] + argv, '/cur/dir'], {})
+                else:
+                    o = I.call(I.lookup('trashcli.list.parser', 'Parser'), ['trash-list'], {})
+                    r = I.call(I.getattr(o, 'parse_list_args'), [argv, 'trash-list'], {})
+                f = options._fields(r)
+                for k in ('options', 'type', 'environ'):
+                    f.pop(k, None)
+                model.append({'kind': r.cls.name,
+                              'fields': dict((k, norm(v)) for k, v in f.items())})
+            except PyExc as pe:
+                if pe.value.cls.name == 'SystemExit':
+                    model.append({'kind': 'SystemExit', 'code': pe.value.attrs.get('code')})
+                else:
+                    model.append({'kind': 'exception:' + pe.value.cls.name})
+            except OutsideSubset as e:
+                model.append({'kind': 'outside-subset', 'why': str(e)})
+    S.run_paths('argparse-validation', body)
+    problems = []
+    outside = 0
+    for (cmd, argv), a, b in zip(jobs, real, model):
+        if b.get('kind') == 'outside-subset':
+            outside += 1
+            continue
+        if a != b:
+            problems.append('%s %r: real %r, model %r' % (cmd, argv, a, b))
+    if S.errors or len(model) != len(jobs):
+        problems.append('model run incomplete: %r' % (S.errors[:2],))
+    return {'what': 'argparse model vs the real argparse through the real parser modules',
+            'cases': len(jobs), 'outside_model': outside,
+            'bound': '%d generated vectors per command, <= 3 options, <= 2 operands' % n,
+            'problems': problems[:10], 'counts_as_proof': False}
